@@ -30,7 +30,7 @@ def _judge(run):
 
 from ..scenario import Objective  # noqa: E402
 
-P = ScenarioProperty(PROP, {"max_wrappers": 3, "families": Objective.FAMILIES + ["infwall"]}, lambda sc: [C03Checker(sc)], _judge, quick=1600, thorough=30000, machine={})
+P = ScenarioProperty(PROP, {"max_wrappers": 3, "allow_cache": True, "families": Objective.FAMILIES + ["infwall"]}, lambda sc: [C03Checker(sc)], _judge, quick=1600, thorough=30000, machine={})
 
 
 def run_shard(tier, seed, shard, nshards, tally, scale=1.0):
